@@ -466,6 +466,17 @@ func (g *Graph) classOf(e ast.Expr, env flagEnv) int8 {
 		}
 	case *ast.CompositeLit, *ast.FuncLit:
 		return 2
+	case *ast.StarExpr:
+		// *new(T): the zero value of T (how the expansion of a helper spells a zero result)
+		if call, ok := ast.Unparen(x.X).(*ast.CallExpr); ok && len(call.Args) == 1 {
+			if id, ok := ast.Unparen(call.Fun).(*ast.Ident); ok && id.Name == "new" {
+				if _, isB := g.Info.Uses[id].(*types.Builtin); isB {
+					if tv, ok := g.Info.Types[call.Args[0]]; ok && tv.IsType() && (isBoolType(tv.Type) || nilable(tv.Type)) {
+						return 1
+					}
+				}
+			}
+		}
 	}
 	return 0
 }
